@@ -35,6 +35,28 @@ Theorem emitted_is_block_prefix :
 Proof. exact emitted_is_block_prefix_gen. Qed.
 Print Assumptions emitted_is_block_prefix.
 
+(** The same for an underlying writer that FAILS: for every fault plan
+    (fault k = true: the k-th Write call on the underlying writer is refused),
+    every wc, script and schedule, in every reachable state the chunks the
+    underlying writer accepted are the members of the first k submitted
+    blocks — whole blocks in write order, decoding to a prefix of the data
+    handed to Write so far; after a failure nothing more is delivered and no
+    EOF marker is written. *)
+Theorem emitted_is_block_prefix_faulty :
+  forall deflate inflate crc32, codec_laws deflate inflate crc32 ->
+  forall lvl h, hdr_ok h ->
+  forall (fault : Z -> bool) wc script sched,
+    let st := run_conc deflate crc32 bgzf_wr_patch_mode bgzf_wr_patch_guard bgzf_wr_overflow_check lvl h fault wc script sched in
+    let s := x_api st in
+    exists k,
+      (k <= length (s_sub s))%nat
+      /\ x_out st = map (member_of deflate crc32 lvl h) (firstn k (s_sub s)) ++ (if s_eof s then [bgzf_magicBlock] else [])
+      /\ gunzip_multi inflate crc32 (out_bytes st) = Some (concat (firstn k (s_sub s)))
+      /\ prefix_of (concat (firstn k (s_sub s))) (s_data s)
+      /\ (x_err st <> None -> s_eof s = false).
+Proof. exact emitted_is_block_prefix_faulty_gen. Qed.
+Print Assumptions emitted_is_block_prefix_faulty.
+
 (** Once Flush and then Wait have returned nil, the stream decodes to a
     prefix of the data that contains everything written before the Flush. *)
 Theorem flush_wait_durable :
@@ -72,6 +94,13 @@ Theorem bam_header_durable :
     cdone st = true -> gunzip_multi inflate crc32 (out_bytes st) = Some hb.
 Proof. exact bam_header_durable_gen. Qed.
 Print Assumptions bam_header_durable.
+
+Example c12_faulty_run :
+  let dfl := fun (_ : Z) (d : list Z) => d ++ [0; 0] in
+  let st := run_conc dfl (fun _ => 0) bgzf_wr_patch_mode bgzf_wr_patch_guard bgzf_wr_overflow_check 6 default_hdr
+                     (fun k => k =? 1) 3 [OpWrite [1]; OpFlush; OpWrite [2]; OpFlush; OpWrite [3]; OpFlush; OpClose] (rr 40 4) in
+  cdone st = true /\ length (x_out st) = 1%nat /\ x_err st = Some 9 /\ s_eof (x_api st) = false.
+Proof. vm_compute. auto. Qed.
 
 Example c12_run :
   let dfl := fun (_ : Z) (d : list Z) => d ++ [0; 0] in
